@@ -11,6 +11,8 @@ import (
 	"testing"
 
 	segjson "github.com/segmentio/encoding/json"
+	"github.com/segmentio/encoding/proto"
+	"github.com/segmentio/encoding/thrift"
 	"pgregory.net/rapid"
 
 	"verif/harness/evid"
@@ -166,4 +168,109 @@ func TestDistinctFirstUse(t *testing.T) {
 			evid.Violation(rt, "DistinctFirstUse", c, f)
 		}
 	})
+}
+
+// fillMutual builds a deterministic value of one of the generated mutually recursive types.
+func fillMutual(t reflect.Type, depth int) reflect.Value {
+	v := reflect.New(t).Elem()
+	for i := 0; i < t.NumField(); i++ {
+		f := v.Field(i)
+		switch f.Kind() {
+		case reflect.Int64:
+			f.SetInt(int64(100*depth + i))
+		case reflect.String:
+			f.SetString(fmt.Sprint("s", depth, i))
+		case reflect.Ptr:
+			if depth > 0 {
+				e := fillMutual(f.Type().Elem(), depth-1)
+				p := reflect.New(f.Type().Elem())
+				p.Elem().Set(e)
+				f.Set(p)
+			}
+		case reflect.Slice:
+			if depth > 0 {
+				e := fillMutual(f.Type().Elem().Elem(), depth-1)
+				p := reflect.New(f.Type().Elem().Elem())
+				p.Elem().Set(e)
+				f.Set(reflect.Append(f, p, p))
+			}
+		case reflect.Map:
+			if depth > 0 {
+				e := fillMutual(f.Type().Elem().Elem(), depth-1)
+				p := reflect.New(f.Type().Elem().Elem())
+				p.Elem().Set(e)
+				m := reflect.MakeMap(f.Type())
+				m.SetMapIndex(reflect.ValueOf("k"), p)
+				f.Set(m)
+			}
+		}
+	}
+	return v
+}
+
+func mutualCall(pkg string, t reflect.Type) (res string) {
+	defer func() {
+		if p := recover(); p != nil {
+			res = fmt.Sprint("PANIC: ", p)
+		}
+	}()
+	v := fillMutual(t, 3)
+	ptr := reflect.New(t)
+	ptr.Elem().Set(v)
+	out := reflect.New(t)
+	switch pkg {
+	case "proto":
+		b, err := proto.Marshal(ptr.Interface())
+		uerr := proto.Unmarshal(b, out.Interface())
+		back, _ := stdjson.Marshal(out.Interface())
+		return fmt.Sprintf("%x|%v|%s|%v|%d", b, err, back, uerr, proto.Size(ptr.Interface()))
+	case "json":
+		b, err := segjson.Marshal(ptr.Interface())
+		uerr := segjson.Unmarshal(b, out.Interface())
+		back, _ := stdjson.Marshal(out.Interface())
+		return fmt.Sprintf("%s|%v|%s|%v", b, err, back, uerr)
+	default:
+		b, err := thrift.Marshal(thrift.Protocol(compact), ptr.Interface())
+		uerr := thrift.Unmarshal(thrift.Protocol(compact), b, out.Interface())
+		back, _ := stdjson.Marshal(out.Interface())
+		return fmt.Sprintf("%x|%v|%s|%v", b, err, back, uerr)
+	}
+}
+
+// TestMutualFirstUse: the first use in this process of each of 40 pairs of mutually recursive message types is
+// made by 8 goroutines at once, half of which start on one type of the pair and half on the other (the codec of
+// one is built while the codec of the other is still under construction). Every result must be what the same call
+// returns afterwards, alone.
+func TestMutualFirstUse(t *testing.T) {
+	n := 0
+	for i, pair := range mutualPairs {
+		pkg := []string{"proto", "json", "thrift"}[(i+evid.Shard())%3]
+		const G = 8
+		res := make([]string, G)
+		var start, done sync.WaitGroup
+		start.Add(1)
+		for g := 0; g < G; g++ {
+			done.Add(1)
+			go func(g int) {
+				defer done.Done()
+				start.Wait()
+				res[g] = mutualCall(pkg, pair[g%2])
+			}(g)
+		}
+		evid.Journal("MutualFirstUse", map[string]any{"pair": i, "pkg": pkg})
+		start.Done()
+		done.Wait()
+		for g := range res {
+			n++
+			if want := mutualCall(pkg, pair[g%2]); strings.HasPrefix(res[g], "PANIC") || res[g] != want {
+				evid.Violation(t, "MutualFirstUse", map[string]any{"pair": i, "pkg": pkg, "goroutine": g},
+					&evid.Failure{Oracle: "each concurrent call returns exactly what it returns running alone", Observed: trunc(res[g]), Expected: trunc(want), Class: "concurrent-result"})
+			}
+		}
+		evid.NonTrivial(evid.HashS("mutual", fmt.Sprint(i, pkg, evid.Shard())))
+	}
+	evid.JournalClear()
+	evid.Eval(n)
+	evid.Label("mutually-recursive-types.concurrent-first-use")
+	evid.Enumerated("MutualFirstUse", 1, 1)
 }
